@@ -428,6 +428,9 @@ func (f *File) ReadAt(b []byte, off int64) (int, error) {
 	if err := f.check("read"); err != nil {
 		return 0, err
 	}
+	if len(b) == 0 {
+		return 0, nil
+	}
 	if f.node.Dir {
 		return 0, perr("read", f.path, syscall.EISDIR)
 	}
@@ -460,8 +463,14 @@ func (f *File) Read(b []byte) (int, error) {
 	if err := f.check("read"); err != nil {
 		return 0, err
 	}
+	if len(b) == 0 {
+		return 0, nil
+	}
 	if f.node.Dir {
 		return 0, perr("read", f.path, syscall.EISDIR)
+	}
+	if f.flags&os.O_WRONLY != 0 {
+		return 0, perr("read", f.path, syscall.EBADF)
 	}
 	act := f.d.enter("read", f.path, f.pos, nil, false, f.ino)
 	if act.Kind == "eio" {
@@ -481,6 +490,9 @@ func (f *File) Read(b []byte) (int, error) {
 
 //go:norace
 func (f *File) writeAt(b []byte, off int64, op string) (int, error) {
+	if len(b) == 0 {
+		return 0, nil
+	}
 	if f.node.Dir {
 		return 0, perr(op, f.path, syscall.EBADF)
 	}
@@ -564,6 +576,9 @@ func (f *File) Write(b []byte) (int, error) {
 	if err := f.check("write"); err != nil {
 		return 0, err
 	}
+	if len(b) == 0 && (f.node.Dir || f.flags&(os.O_WRONLY|os.O_RDWR) == 0) {
+		return 0, perr("write", f.path, syscall.EBADF)
+	}
 	if f.flags&os.O_APPEND != 0 {
 		f.pos = int64(len(f.ino.Data))
 	}
@@ -587,6 +602,9 @@ func (f *File) Seek(offset int64, whence int) (int64, error) {
 	case io.SeekCurrent:
 		np = f.pos + offset
 	case io.SeekEnd:
+		if f.ino == nil {
+			return 0, perr("seek", f.path, syscall.EINVAL)
+		}
 		np = int64(len(f.ino.Data)) + offset
 	default:
 		return 0, perr("seek", f.path, syscall.EINVAL)
